@@ -158,7 +158,7 @@ def check(rep, ctx):
                 for kt, (kind, bits) in TIME.items():
                     if name in (f"read_{kt}", f"read_nullable_{kt}", f"write_{kt}", f"write_nullable_{kt}"):
                         q, issues = (timeflow.read_side if side == "readers" else timeflow.write_side)(d["conv"], bits, kind)
-                        issues = [i for i in issues if i[0] in ("T-gran", "T-float64", "T-trunc")]
+                        issues = [i for i in issues if i[0] in ("T-gran", "T-float64", "T-trunc", "T-epoch")]
                         if q is None:
                             issues = [("T-?", "time conversion not understood", "")]
                         rep.check(R_E, not issues, construct=f"kio.serial.{side}:{name}", stmt=timeflow.show(d["conv"]),
